@@ -209,7 +209,7 @@ def _coerce(arr: np.ndarray, vi) -> np.ndarray:
         arr = np.stack([arr.real, arr.imag], axis=-1)
     if arr.dtype != want:
         arr = arr.astype(want)
-    return np.ascontiguousarray(arr)
+    return arr if arr.ndim == 0 else np.ascontiguousarray(arr)   # ascontiguousarray would promote a scalar to rank 1
 
 
 def jax_eval(callable_obj: Any, xs: Sequence[np.ndarray], input_params: dict[str, Any] | None, x64: bool) -> list[np.ndarray]:
